@@ -132,6 +132,7 @@ type pathState struct {
 	traces   []string
 	samples  []string
 	panicStk string
+	initSteps int64
 	expectDeadlock bool
 }
 
@@ -493,6 +494,7 @@ type Config struct {
 	BenignGlobals map[string]bool
 	Verbose       bool
 	Tier          int
+	NoInitReuse   bool // re-run package initialisation on every path
 	PreemptAtSync bool // also allow voluntary switches before non-blocking mutex/channel operations
 	Fallbacks     []string
 	BuildFilter   func(path string) bool
@@ -603,6 +605,127 @@ func noopIntrinsic(fn *ssa.Function) Intrinsic {
 type worker struct {
 	id     int
 	solver *Solver
+	// package-level state after init, reused across paths while unmodified
+	globals   map[*ssa.Global]*value
+	initRun   map[*ssa.Package]bool
+	initValid bool
+	initDirty bool
+	gcells    map[*value]struct{}
+	gmaps     map[*omap]struct{}
+	gchans    map[*chanv]struct{}
+}
+
+// snapshotGlobals records every cell, map and channel reachable from the
+// package-level variables, so that later writes to them can be detected.
+func (w *worker) snapshotGlobals(i *interpreter) {
+	w.gcells = map[*value]struct{}{}
+	w.gmaps = map[*omap]struct{}{}
+	w.gchans = map[*chanv]struct{}{}
+	for _, cell := range i.globals {
+		w.registerGlobalCell(cell)
+	}
+	w.initValid = true
+	w.initDirty = false
+}
+
+// registerGlobalCell records a cell (and everything reachable from it) as package-level state.
+func (w *worker) registerGlobalCell(root *value) {
+	var walk func(v value)
+	var walkCell func(p *value)
+	walkCell = func(p *value) {
+		if p == nil {
+			return
+		}
+		if _, ok := w.gcells[p]; ok {
+			return
+		}
+		w.gcells[p] = struct{}{}
+		walk(*p)
+	}
+	walk = func(v value) {
+		switch v := v.(type) {
+		case *value:
+			walkCell(v)
+		case structure:
+			for k := range v {
+				walkCell(&v[k])
+			}
+		case array:
+			for k := range v {
+				walkCell(&v[k])
+			}
+		case []value:
+			full := v[:cap(v)]
+			for k := range full {
+				walkCell(&full[k])
+			}
+		case iface:
+			walk(v.v)
+		case *omap:
+			if v == nil {
+				return
+			}
+			if _, ok := w.gmaps[v]; ok {
+				return
+			}
+			w.gmaps[v] = struct{}{}
+			for k := range v.entries {
+				walk(v.entries[k].key)
+				walk(v.entries[k].val)
+			}
+		case *chanv:
+			if v != nil {
+				w.gchans[v] = struct{}{}
+				v.dirty = &w.initDirty
+			}
+		case *closure:
+			for k := range v.Env {
+				walk(v.Env[k])
+			}
+		case tuple:
+			for k := range v {
+				walk(v[k])
+			}
+		}
+	}
+	walkCell(root)
+}
+
+func (i *interpreter) noteWrite(p *value) {
+	if w := i.w; w != nil && w.initValid && !w.initDirty {
+		if _, ok := w.gcells[p]; ok {
+			w.initDirty = true
+			if os.Getenv("VERIF_DEBUG_DIRTY") != "" {
+				fmt.Fprintf(os.Stderr, "DIRTY cell write: %s\n", truncate(string(debug.Stack()), 1500))
+			}
+		}
+	}
+}
+
+func (i *interpreter) noteMapWrite(m *omap) {
+	if w := i.w; w != nil && w.initValid && !w.initDirty {
+		if _, ok := w.gmaps[m]; ok {
+			w.initDirty = true
+			if os.Getenv("VERIF_DEBUG_DIRTY") != "" {
+				fmt.Fprintf(os.Stderr, "DIRTY map write: %s\n", truncate(string(debug.Stack()), 1500))
+			}
+		}
+	}
+}
+
+func (i *interpreter) noteChanWrite(c *chanv) {
+	if w := i.w; w != nil && w.initValid && !w.initDirty {
+		if _, ok := w.gchans[c]; ok {
+			w.initDirty = true
+		}
+	}
+}
+
+// noteSliceWrite marks writes through a slice's elements.
+func (i *interpreter) noteSliceWrite(s []value) {
+	if len(s) > 0 {
+		i.noteWrite(&s[0])
+	}
 }
 
 type HarnessResult struct {
@@ -747,7 +870,18 @@ func (ex *Explorer) runPath(w *worker, prefix []Decision) {
 	ps := &pathState{ex: ex, w: w, st: NewTermStore(), prefix: prefix, maxSteps: cfg.MaxSteps,
 		covers: map[string]bool{}, bounds: map[string]int64{}, funcs: map[*ssa.Function]bool{}, models: map[string]bool{}}
 	w.solver.Reset()
-	i := &interpreter{prog: ex.prog, globals: make(map[*ssa.Global]*value), ps: ps, ex: ex, initRun: map[*ssa.Package]bool{}}
+	reuse := w.initValid && !w.initDirty && !cfg.NoInitReuse
+	if os.Getenv("VERIF_DEBUG_DIRTY") != "" {
+		fmt.Fprintf(os.Stderr, "path %d: initValid=%v initDirty=%v\n", n, w.initValid, w.initDirty)
+	}
+	if !reuse {
+		w.globals = make(map[*ssa.Global]*value)
+		w.initRun = map[*ssa.Package]bool{}
+		w.initValid = false
+		w.initDirty = false
+		w.gcells, w.gmaps, w.gchans = nil, nil, nil
+	}
+	i := &interpreter{prog: ex.prog, globals: w.globals, ps: ps, ex: ex, initRun: w.initRun, w: w, skipInit: reuse}
 	i.sizes = &types.StdSizes{WordSize: 8, MaxAlign: 8}
 	if rp := ex.prog.ImportedPackage("runtime"); rp != nil {
 		if t := rp.Type("errorString"); t != nil {
@@ -861,10 +995,16 @@ func (i *interpreter) runMain(entry *ssa.Function) (end pathEnd) {
 		}()
 		fr0 := &frame{i: i, g: g0}
 		// package initialisation through the import chain, filtered by the allow-list
-		if entry.Pkg != nil {
+		if entry.Pkg != nil && !i.skipInit {
 			if init := entry.Pkg.Func("init"); init != nil {
 				i.callSSAFrom(fr0, init, nil)
 			}
+			// Package-level state is shared by the following paths of this worker
+			// as long as no path writes to it (every write site calls noteWrite).
+			if len(ps.taken) == 0 && len(ps.events) == 0 && len(ps.sched.gs) == 1 {
+				i.w.snapshotGlobals(i)
+			}
+			ps.initSteps = ps.steps
 		}
 		i.callSSAFrom(fr0, entry, nil)
 		// main returned: all other goroutines must have finished or be blocked forever
